@@ -547,6 +547,20 @@ def _values_and_names_in_c(ctx, rep, tier):
                 any("self._check_constant_fits(action.value_expr, target)" in ast.unparse(st) for st in setto) and \
                 model.has("CodegenCtx._generate_start_implementation", "self._check_constant_fits(out_expr.default_value, out_expr)")
         rep.check(ok_n, "C11.n", gen, f"value-level gcc diagnostics: {what}", f"accepted and emitted unchecked: {example}; the generated source does not compile under -Wall -Werror")
+    # F-106 (open): C evaluates a constant sub-expression in the type of its operands (int unless one is wider): `2147483647 + 1` overflows although the folded value fits
+    # the 64-bit destination; only the final folded value is range-checked
+    sub = where({"SumIntegerExpr", "MulIntegerExpr", "BitShiftIntegerExpr"}, [])
+    ok_sub = guarded_raise([st for st in sub], r"_constant_value_of\(intexpr\)|get_literal_result\(\).*(1 << 31|2147483647|INT_MAX)")
+    rep.check(ok_sub, "C11.n", gen, "value-level gcc diagnostics: constant sub-expression ranges",
+              "accepted and emitted unchecked: `out int{size 8} y; y = [2147483647 + 1];` -> -Woverflow (integer overflow in expression of type int); `s[y] << 40` with a 64-bit index only -> "
+              "-Wshift-count-overflow; the generated source does not compile under -Wall -Werror")
+    # F-105: constants that have no C spelling - INT64_MIN's digits are not a signed constant, 2^64 and beyond are no constant at all
+    clv = "CodegenCtx._convert_literal_value"
+    ok_s = model.has(clv, "if not -(1 << 63) <= value < 1 << 64:\n    raise IllegalIntExpr($$m, literal)") and \
+        model.has(clv, "if value == -(1 << 63):\n    return '(-9223372036854775807 - 1)'") and model.has(clv, "return str(value) + ('u' if value >= 1 << 63 else '')")
+    rep.check(ok_s, "C11.n", clv, "value-level gcc diagnostics: every emitted integer constant has a valid C spelling (INT64_MIN as an expression, unsigned suffix from 2^63, refusal beyond 64 bits)",
+              "an integer constant is emitted as its decimal digits whatever its value: `-9223372036854775808` is not a valid signed constant (gcc: 'integer constant is so large that it is unsigned') "
+              "and constants from 2^64 on are refused by every C compiler")
 
 
 _run_nop = run
